@@ -406,7 +406,7 @@ func c19Scenarios(thorough bool) []*core.Scenario {
 	// concurrently committing writers, also on a 10-frame pool (eviction of dirty pages next to commits)
 	scs = append(scs, c08ConcScenarios(thorough)...)
 	for _, s := range c17Scenarios(false) {
-		if strings.HasPrefix(s.Name, "skip:") || thorough {
+		if strings.HasPrefix(s.Name, "skip:") || strings.Contains(s.Name, "delete||delete") || thorough {
 			scs = append(scs, s.build(1))
 		}
 	}
